@@ -632,21 +632,16 @@ fn range<'s>(input: &mut &'s str) -> PResult<Vec<BoundSet>, SemverParseError<&'s
     Parser::map(
         separated(0.., simple, space1),
         |bs: Vec<Option<BoundSet>>| {
-            bs.into_iter()
-                .flatten()
-                .fold(Vec::new(), |mut acc: Vec<BoundSet>, bs| {
-                    if let Some(last) = acc.pop() {
-                        if let Some(bound) = last.intersect(&bs) {
-                            acc.push(bound);
-                        } else {
-                            acc.push(last);
-                            acc.push(bs);
-                        }
-                    } else {
-                        acc.push(bs)
-                    }
-                    acc
-                })
+            // Every comparator of one alternative has to hold: intersect them all, and
+            // drop the alternative when nothing can satisfy them together.
+            let mut sets = bs.into_iter().flatten();
+            match sets.next() {
+                Some(first) => sets
+                    .try_fold(first, |acc, bs| acc.intersect(&bs))
+                    .into_iter()
+                    .collect(),
+                None => Vec::new(),
+            }
         },
     )
     .parse_next(input)
